@@ -179,7 +179,7 @@ def control_program(draw):
         body = [['wait', 0.0625]]
         elapsed = 0.0625
         for _ in range(draw(st.integers(1, 8))):
-            k = draw(st.integers(0, 11))
+            k = draw(st.integers(0, 13))
             tgt = draw(st.sampled_from(targets))
             if k <= 2:
                 body.append(['pause', tgt])
@@ -190,14 +190,14 @@ def control_program(draw):
             elif k <= 8 and nclocks:
                 body.append(['tempo', draw(st.integers(0, nclocks - 1)),
                              draw(st.sampled_from([0.5, 1, 2, 4]))])
-            elif k == 9 and nclocks and elapsed > 1.0625:
+            elif k in (9, 12, 13) and nclocks and elapsed > 1.0625:
                 # the clock's beats jump (forward: sleepers left behind are
                 # performed at once, with a logical time up to 1 s in the
                 # past - hence not near the program start, where NRT time
                 # would become negative; backward: they wait longer)
                 body.append(['beats_add', draw(st.integers(0, nclocks - 1)),
-                             draw(st.sampled_from([0.25, 0.5, -0.5]))])
-            elif k == 9:
+                             draw(st.sampled_from([0.25, 0.5, 0.5, -0.5]))])
+            elif k in (9, 12):
                 c = draw(st.integers(0, 1))
                 body.append(['ctest', c, True])
                 body.append(['csignal', c])
